@@ -28,6 +28,7 @@ type params struct {
 	dec    vivid.SupervisionDecision
 	all    bool                      // one-for-all at s
 	dec2   vivid.SupervisionDecision // t's decision (escalation)
+	dec3   vivid.SupervisionDecision // u's decision (second escalation)
 	pos    int                       // position of boom in the burst (1..3)
 	hook   string                    // none | restarted-panic | prelaunch-err | prerestart-err
 	second bool                      // a fails a second time later
@@ -38,7 +39,7 @@ func (p params) name() string {
 	if p.all {
 		st = "all"
 	}
-	return fmt.Sprintf("site=%s/%s/dec=%s/for-%s/dec2=%s/pos=%d/hook=%s/second=%v", p.site, p.cause, p.dec, st, p.dec2, p.pos, p.hook, p.second)
+	return fmt.Sprintf("site=%s/%s/dec=%s/for-%s/dec2=%s/dec3=%s/pos=%d/hook=%s/second=%v", p.site, p.cause, p.dec, st, p.dec2, p.dec3, p.pos, p.hook, p.second)
 }
 
 const (
@@ -51,54 +52,73 @@ const (
 )
 
 // expect is the reference model: the effect every actor of the tree must show.
+// Tree: / -> u -> t -> s -> {a -> g, b}
+var allPaths = []string{"/u", "/u/t", "/u/t/s", "/u/t/s/a", "/u/t/s/a/g", "/u/t/s/b"}
+
+func descendants(path string) []string {
+	var out []string
+	for _, q := range allPaths {
+		if strings.HasPrefix(q, path+"/") {
+			out = append(out, q)
+		}
+	}
+	return out
+}
+
 func expect(p params) (eff map[string]string, decisions []string) {
-	eff = map[string]string{"/t": untouched, "/t/s": untouched, "/t/s/a": untouched, "/t/s/a/g": untouched, "/t/s/b": untouched}
-	if p.site == "onKill" {
+	eff = map[string]string{}
+	for _, q := range allPaths {
+		eff[q] = untouched
+	}
+	if p.site == "onKill" || p.site == "childKilledWhileStopping" {
 		// failure while stopping: no supervision at all; a was killed by the driver
-		eff["/t/s/a"], eff["/t/s/a/g"] = stopped, stopped
+		eff["/u/t/s/a"], eff["/u/t/s/a/g"] = stopped, stopped
 		return eff, nil
 	}
-	decisions = []string{fmt.Sprintf("/t/s<-/t/s/a:%s", p.dec)}
-	targets := []string{"/t/s/a"}
-	if p.all {
-		targets = append(targets, "/t/s/b")
+	// the chain of (supervisor, failing child, decision)
+	chain := []struct {
+		sup, child string
+		dec        vivid.SupervisionDecision
+	}{
+		{"/u/t/s", "/u/t/s/a", p.dec}, {"/u/t", "/u/t/s", p.dec2}, {"/u", "/u/t", p.dec3}, {"/", "/u", vivid.SupervisionDecisionStop},
 	}
-	switch {
-	case p.dec.IsRestart():
-		for _, t := range targets {
-			eff[t] = restarted
+	for li, l := range chain {
+		if l.sup != "/" {
+			decisions = append(decisions, fmt.Sprintf("%s<-%s:%s", l.sup, l.child, l.dec))
 		}
-		eff["/t/s/a/g"] = respawned
-		if p.hook == "restarted-panic" || p.hook == "prelaunch-err" {
-			eff["/t/s/a"] = zombie
-			eff["/t/s/a/g"] = stopped
+		targets := []string{l.child}
+		if li == 0 && p.all {
+			targets = append(targets, "/u/t/s/b")
 		}
-	case p.dec.IsStop():
-		for _, t := range targets {
-			eff[t] = stopped
-		}
-		eff["/t/s/a/g"] = stopped
-	case p.dec.IsResume():
-		eff["/t/s/a"] = resumed
-		if p.site == "childKilled" {
-			eff["/t/s/a/g"] = stopped // killed by the driver to provoke the failure
-		}
-	case p.dec.IsEscalate():
-		decisions = append(decisions, fmt.Sprintf("/t<-/t/s:%s", p.dec2))
 		switch {
-		case p.dec2.IsRestart():
-			eff["/t/s"] = restarted
-			eff["/t/s/a"], eff["/t/s/b"], eff["/t/s/a/g"] = respawned, respawned, respawned
-		case p.dec2.IsStop():
-			eff["/t/s"], eff["/t/s/a"], eff["/t/s/b"], eff["/t/s/a/g"] = stopped, stopped, stopped, stopped
-		case p.dec2.IsResume():
-			eff["/t/s/a"] = resumed
-		case p.dec2.IsEscalate():
-			// handed to the root, whose strategy is the system default: Stop (applied to t)
-			for k := range eff {
-				eff[k] = stopped
+		case l.dec.IsRestart():
+			for _, t := range targets {
+				eff[t] = restarted
+				for _, d := range descendants(t) {
+					eff[d] = respawned
+				}
 			}
+			if li == 0 && (p.hook == "restarted-panic" || p.hook == "prelaunch-err") {
+				eff["/u/t/s/a"] = zombie
+				eff["/u/t/s/a/g"] = stopped
+			}
+			return
+		case l.dec.IsStop():
+			for _, t := range targets {
+				eff[t] = stopped
+				for _, d := range descendants(t) {
+					eff[d] = stopped
+				}
+			}
+			return
+		case l.dec.IsResume():
+			eff["/u/t/s/a"] = resumed
+			if p.site == "childKilled" {
+				eff["/u/t/s/a/g"] = stopped // killed by the driver to provoke the failure
+			}
+			return
 		}
+		// escalate: continue with the next level
 	}
 	return
 }
@@ -154,7 +174,7 @@ func scenario(p params, bounds []int) *vexp.Scenario {
 				}
 			}
 			a.OnKilled = func(act *vsys.Act, ctx vivid.ActorContext, m *vivid.OnKilled) {
-				if p.site == "childKilled" && m.Ref.GetPath() == "/t/s/a/g" && failed < 1 {
+				if (p.site == "childKilled" || p.site == "childKilledWhileStopping") && m.Ref.GetPath() == "/u/t/s/a/g" && failed < 1 {
 					failed++
 					fail(ctx, p.cause)
 				}
@@ -180,16 +200,18 @@ func scenario(p params, bounds []int) *vexp.Scenario {
 			}
 			b := &vsys.Script{Name: "b"}
 			s := &vsys.Script{Name: "s", Children: []*vsys.Script{a, b}}
-			s.Strategy = w.Decider("/t/s", p.all, p.dec)
+			s.Strategy = w.Decider("/u/t/s", p.all, p.dec)
 			t := &vsys.Script{Name: "t", Children: []*vsys.Script{s}}
-			t.Strategy = w.Decider("/t", false, p.dec2)
-			if _, err := w.SpawnRoot(t); err != nil {
+			t.Strategy = w.Decider("/u/t", false, p.dec2)
+			u := &vsys.Script{Name: "u", Children: []*vsys.Script{t}}
+			u.Strategy = w.Decider("/u", false, p.dec3)
+			if _, err := w.SpawnRoot(u); err != nil {
 				x.Fail("harness", "spawn: %v", err)
 				return
 			}
 			vrt.QuiesceNoTimers()
-			ra, rb := w.Ref("/t/s/a"), w.Ref("/t/s/b")
-			ctxA, ctxB := actor.VerifCtxOf(w.Sys, "/t/s/a"), actor.VerifCtxOf(w.Sys, "/t/s/b")
+			ra, rb := w.Ref("/u/t/s/a"), w.Ref("/u/t/s/b")
+			ctxA, ctxB := actor.VerifCtxOf(w.Sys, "/u/t/s/a"), actor.VerifCtxOf(w.Sys, "/u/t/s/b")
 			var sentA, sentB []string
 			tellA := func(id string) { sentA = append(sentA, id); w.Sys.Tell(ra, vsys.Msg{ID: id}); vrt.Yield() }
 			tellB := func(id string) { sentB = append(sentB, id); w.Sys.Tell(rb, vsys.Msg{ID: id}); vrt.Yield() }
@@ -200,10 +222,13 @@ func scenario(p params, bounds []int) *vexp.Scenario {
 					case "msg":
 						tellA("boom")
 					case "childKilled":
-						w.Sys.Kill(w.Ref("/t/s/a/g"), false, "driver")
+						w.Sys.Kill(w.Ref("/u/t/s/a/g"), false, "driver")
 						vrt.Yield()
 					case "onKill":
 						w.Sys.Kill(ra, true, "driver")
+						vrt.Yield()
+					case "childKilledWhileStopping":
+						w.Sys.Kill(ra, false, "driver")
 						vrt.Yield()
 					}
 				}
@@ -259,7 +284,7 @@ func scenario(p params, bounds []int) *vexp.Scenario {
 					ctxs[in.Ctx] = true
 				}
 				mult := 1
-				if p.second && (path == "/t/s/a" || (p.all && path == "/t/s/b") || path == "/t/s/a/g") {
+				if p.second && (path == "/u/t/s/a" || (p.all && path == "/u/t/s/b") || path == "/u/t/s/a/g") {
 					mult = 2
 				}
 				switch e {
@@ -305,9 +330,9 @@ func scenario(p params, bounds []int) *vexp.Scenario {
 					}
 				}
 			}
-			if eff["/t/s/a"] == resumed {
+			if eff["/u/t/s/a"] == resumed {
 				booms, insts := 0, map[int]bool{}
-				for _, en := range w.EntriesOf("/t/s/a") {
+				for _, en := range w.EntriesOf("/u/t/s/a") {
 					if en.Type == "Msg" && strings.HasPrefix(en.Detail, "boom") {
 						booms++
 					}
@@ -411,18 +436,18 @@ func scenario(p params, bounds []int) *vexp.Scenario {
 					}
 				}
 			}
-			if !p.dec.IsEscalate() && p.site != "onKill" && p.site != "launch" && p.site != "sched" {
+			if !p.dec.IsEscalate() && p.site != "onKill" && p.site != "childKilledWhileStopping" && p.site != "launch" && p.site != "sched" {
 				failing := ""
 				if p.site == "msg" {
 					failing = "boom"
 				}
 				if p.site == "msg" {
-					checkBurst("/t/s/a", ctxA, sentA, eff["/t/s/a"], failing)
+					checkBurst("/u/t/s/a", ctxA, sentA, eff["/u/t/s/a"], failing)
 				}
 				if !p.all || p.dec.IsResume() {
-					checkBurst("/t/s/b", ctxB, sentB, untouched, "")
+					checkBurst("/u/t/s/b", ctxB, sentB, untouched, "")
 				} else if p.dec.IsRestart() {
-					checkBurst("/t/s/b", ctxB, sentB, restarted, "")
+					checkBurst("/u/t/s/b", ctxB, sentB, restarted, "")
 				}
 			}
 			// probes: every survivor processes a message sent after quiescence
@@ -451,27 +476,27 @@ func scenario(p params, bounds []int) *vexp.Scenario {
 					rule("C09", "zombie-inert", "zombie %s ran user code for a probe message", path)
 				}
 			}
-			if eff["/t/s/a"] == zombie {
-				zc := actor.VerifCtxOf(w.Sys, "/t/s/a")
+			if eff["/u/t/s/a"] == zombie {
+				zc := actor.VerifCtxOf(w.Sys, "/u/t/s/a")
 				if zc != nil {
 					d := actor.VerifCtx(zc)
 					if d.UserQ != 0 || d.SysQ != 0 {
 						rule("C09", "zombie-consumes-mail", "zombie still has queued mail: user=%d system=%d", d.UserQ, d.SysQ)
 					}
 				}
-				for _, en := range w.EntriesOf("/t/s") {
-					if en.Type == "OnKilled" && en.Detail == "/t/s/a" {
-						rule("C09", "zombie-inert", "zombie /t/s/a sent a termination notice to its parent before being released")
+				for _, en := range w.EntriesOf("/u/t/s") {
+					if en.Type == "OnKilled" && en.Detail == "/u/t/s/a" {
+						rule("C09", "zombie-inert", "zombie /u/t/s/a sent a termination notice to its parent before being released")
 					}
 				}
 				// explicit Kill releases it
 				w.Sys.Kill(ra, false, "release")
 				vrt.Quiesce()
-				if count("ActorKilledEvent", "/t/s/a") != 1 {
-					rule("C09", "zombie-released-by-kill", "Kill of zombie /t/s/a did not release it (killed-events=%d)", count("ActorKilledEvent", "/t/s/a"))
+				if count("ActorKilledEvent", "/u/t/s/a") != 1 {
+					rule("C09", "zombie-released-by-kill", "Kill of zombie /u/t/s/a did not release it (killed-events=%d)", count("ActorKilledEvent", "/u/t/s/a"))
 				}
-				if _, err := w.Sys.FindActor("localhost/t/s/a"); err == nil {
-					rule("C09", "zombie-released-by-kill", "zombie /t/s/a still registered after Kill")
+				if _, err := w.Sys.FindActor("localhost/u/t/s/a"); err == nil {
+					rule("C09", "zombie-released-by-kill", "zombie /u/t/s/a still registered after Kill")
 				}
 			}
 			err := w.Sys.Stop()
@@ -511,7 +536,7 @@ func build(tier string) []*vexp.Scenario {
 	}
 	var out []*vexp.Scenario
 	add := func(p params) { out = append(out, scenario(p, bounds)) }
-	base := params{site: "msg", cause: "panic", dec: vivid.SupervisionDecisionRestart, dec2: vivid.SupervisionDecisionResume, pos: 2, hook: "none"}
+	base := params{site: "msg", cause: "panic", dec: vivid.SupervisionDecisionRestart, dec2: vivid.SupervisionDecisionResume, dec3: vivid.SupervisionDecisionResume, pos: 2, hook: "none"}
 	for _, site := range []string{"launch", "msg", "childKilled", "sched"} {
 		for _, cause := range []string{"panic", "failed"} {
 			for _, d := range decisions {
@@ -533,6 +558,14 @@ func build(tier string) []*vexp.Scenario {
 			}
 		}
 	}
+	// double escalation: a -> s -> t -> u decides
+	for _, d3 := range []vivid.SupervisionDecision{vivid.SupervisionDecisionRestart, vivid.SupervisionDecisionGracefulRestart, vivid.SupervisionDecisionStop, vivid.SupervisionDecisionGracefulStop, vivid.SupervisionDecisionResume, vivid.SupervisionDecisionEscalate} {
+		for _, all := range []bool{false, true} {
+			p := base
+			p.dec, p.dec2, p.dec3, p.all = vivid.SupervisionDecisionEscalate, vivid.SupervisionDecisionEscalate, d3, all
+			add(p)
+		}
+	}
 	// burst positions
 	for _, pos := range []int{1, 3} {
 		for _, d := range decisions {
@@ -545,9 +578,13 @@ func build(tier string) []*vexp.Scenario {
 	}
 	// failure while already stopping
 	for _, cause := range []string{"panic", "failed"} {
-		p := base
-		p.site, p.cause = "onKill", cause
-		add(p)
+		for _, site := range []string{"onKill", "childKilledWhileStopping"} {
+			for _, d := range []vivid.SupervisionDecision{vivid.SupervisionDecisionRestart, vivid.SupervisionDecisionStop} {
+				p := base
+				p.site, p.cause, p.dec = site, cause, d
+				add(p)
+			}
+		}
 	}
 	// second failure of the same child
 	for _, d := range []vivid.SupervisionDecision{vivid.SupervisionDecisionRestart, vivid.SupervisionDecisionGracefulRestart, vivid.SupervisionDecisionResume} {
